@@ -17,6 +17,9 @@ VERIF = os.path.dirname(os.path.dirname(os.path.abspath(__file__)))
 REPO = os.environ.get('VERIF_REPO', '/repo')
 
 
+BUDGETS = {}
+
+
 def patches():
     out = []
     for p in sorted(glob.glob(os.path.join(VERIF, 'selftest', 'mutants', '*.patch'))):
@@ -32,6 +35,10 @@ def patches():
             # meta "expect": "silent" marks a behaviour-preserving rewrite: the owning check must not raise an alarm
             out.append(('seeded/' + os.path.basename(d), pf, m.get('caught_by') or [m['property']],
                         m.get('expect') == 'silent'))
+            if m.get('budget_s'):
+                # a change whose violating runs are rare (a few per quick sweep): the self-test gives the sweep more time
+                # so that it does not hinge on one lucky seed or an idle machine; meta.json says how rare
+                BUDGETS['seeded/' + os.path.basename(d)] = str(m['budget_s'])
     return out
 
 
@@ -66,6 +73,8 @@ def main(argv):
                 cmd = [os.path.join(VERIF, 'check'), owner, '--tier', tier, '--no-evidence', '--shrink-budget', '5']
                 if not expect_silent:
                     cmd.append('--first')      # same budget, but stop as soon as one witness is found
+                    if name in BUDGETS:
+                        cmd += ['--budget', BUDGETS[name]]
                 p = subprocess.run(cmd,
                                    env=env, stdout=subprocess.PIPE, stderr=subprocess.DEVNULL)
                 out = p.stdout.decode('utf-8', 'replace')
